@@ -82,7 +82,8 @@ def body(ctx, cfg):
                 contiguous.append(EQ(c['start'], prev_apply))
             quiet_since = False
             anchor = None
-            prev_apply = ap.get(c['k'], prev_apply)
+            prev_apply = ap.get(c['k'], c['start'] + c['ts']
+                                if c.get('empty') else prev_apply)
         if cfg['cond'] == 'none':
             total.append(EQ(SUM([c['ts'] for c in p.ncalls]), G - run.g0))
     ctx.claim('C02.len', AND(ln), sig=sig, info=describe)
@@ -94,8 +95,9 @@ def body(ctx, cfg):
         for path, adv in front.items():
             complete.append(EQ(adv['time'], G))
             complete.append(len(adv['update']) == 0)
-    complete.append(len(run.applied) == sum(len(p.ncalls)
-                                            for p in run.procs.values()))
+    complete.append(len(run.applied) == sum(
+        len([c for c in p.ncalls if not c.get('empty')])
+        for p in run.procs.values()))
     ctx.claim('C02.complete', AND(complete), sig=sig, info=describe)
     for n, p in run.procs.items():
         for c in p.ncalls:
